@@ -125,7 +125,7 @@ def alt_frame():
 
 ATOMS = {"f": "f", "g": "g", "x": "x", "z": "z", "k": "C(k)", "h": "h", "t": "T(f, 'fb')"}
 CATS = {"f", "g", "k", "h", "t"}
-NAME2COL = {"C(k)": "k", "T(f, 'fb')": "f"}
+NAME2COL = {"C(k)": "k", "T(f, 'fb')": "f", "C(f, levels=sub)": "f", "C(g, levels=sub)": "g"}
 EXPLICIT_REF = {"T(f, 'fb')": "fb"}
 
 
@@ -206,6 +206,7 @@ def units(tier, seed):
         for v in VARIANTS:
             for r in rots:
                 u.append([{"n": n, "variant": v, "rot": r, "f": f} for f in fs])
+    u.append([{"subset_levels": True, "n": n, "variant": v, "rot": 0} for n in ns for v in ("str", "cat-ord", "falsy")])
     return u
 
 
@@ -397,10 +398,40 @@ def exercise(dm, df, order=None, names=None, problems=None):
     return "+".join(done)
 
 
+def check_subset_levels(case, acc):
+    """levels= that leaves out a value of the data: refused, or every column is still what its label says."""
+    from formulae import design_matrices
+
+    df, order = frame(case["n"], case["variant"], case["rot"])
+    problems = []
+    for col, sub in (("f", sorted(set(df["f"]))[:2]), ("f", sorted(set(df["f"]))[1:]), ("g", sorted(set(df["g"]))[:1])):
+        name = f"C({col}, levels=sub)"
+        for formula in (f"y ~ 0 + {name}", f"y ~ {name}", f"y ~ 0 + {name}:x", f"y ~ x + (1|{name})"):
+            acc.calls += 1
+            try:
+                dm = design_matrices(formula, df, extra_namespace={"sub": list(sub)})
+            except Exception:
+                acc.bulk(1, "subset-levels-refused")
+                continue
+            for tname, t in (dm.common.terms.items() if dm.common is not None else ()):
+                if name in tname:
+                    check_labels(list(t.labels), dm.common[tname], df, dict(order, **{col: list(sub)}), ["x", name], f"{formula!r} with sub={list(sub)} was accepted; term {tname}", problems, subset=True)
+            if dm.group is not None:
+                for tname, t in dm.group.terms.items():
+                    check_labels(t.labels, dm.group[tname], df, dict(order, **{col: list(sub)}), ["x", name], f"{formula!r} with sub={list(sub)} was accepted; group term {tname}", problems, group=True, subset=True)
+    if problems:
+        acc.case(case, "MISMATCH", sample=False)
+        acc.violation(problems[0][0], "mismatch", case, problems[0][1])
+    else:
+        acc.case(case, "ok", nontrivial=True)
+
+
 def check_case(case, acc):
     from formulae import design_matrices
     from fmc.core import exc_sig
 
+    if case.get("subset_levels"):
+        return check_subset_levels(case, acc)
     c = case["f"]
     df, order = frame(case["n"], case["variant"], case["rot"])
     f = formula_of(c)
@@ -446,4 +477,6 @@ def classify(case, clause, sig, detail):
 
 
 def snippet(case):
+    if case.get("subset_levels"):
+        return f"# fmc.checks.c04.check_subset_levels({case!r})"
     return f"# frame: fmc.checks.c04.frame({case['n']}, {case['variant']!r}, {case['rot']})\nfrom formulae import design_matrices\ndm = design_matrices({formula_of(case['f'])!r}, df)\nprint(dm.common.as_dataframe())"
